@@ -7,6 +7,7 @@
 
    SPEC: [spec_item], written with positions and [nth] only (no slicing, no failure). *)
 From Coq Require Import List Bool Arith ZArith NArith Lia.
+From PC Require Base.Py.
 From PC Require Import Base.Outcome Model.IndexTable Model.PrimCtor.
 Import ListNotations.
 
@@ -78,7 +79,11 @@ Definition range_of (p : iprim) (i : nat) : outcome (nat * nat) :=
 Definition getitem (p : iprim) (i : nat) : outcome item :=
   match range_of p i with Raise e => Raise e | Ok (st, cnt) =>
   match ip_vertex p with
-  | None => Raise PyTypeError                      (* None[...] *)
+  | None =>
+      (* no array views at all (empty index).  Polylists / polygons can still have polygons
+         (vcount 0): each is an item without corners; the other kinds never get here *)
+      if is_poly (ip_kind p) then Ok (Item [] [] NINone NNone [] [] (ip_material p))
+      else Raise PyTypeError
   | Some (vdata, vidx) =>
     let vi := slice st cnt vidx in
     match gather vdata vi with Raise e => Raise e | Ok vs =>
@@ -102,6 +107,14 @@ Definition getitem (p : iprim) (i : nat) : outcome item :=
                uvs (ip_material p))
     end end end
   end end.
+
+(* prim[z] for any Python integer: numpy's (and list's) index normalisation - negative
+   positions count from the end, anything outside [-len, len) is an IndexError *)
+Definition getitem_z (p : iprim) (z : Z) : outcome item :=
+  match Py.norm_index (ilen p) z with
+  | None => Raise PyIndexError
+  | Some i => getitem p i
+  end.
 
 (* list(prim) *)
 Definition iter (p : iprim) : outcome (list item) := legacy_iter (S (ilen p)) (getitem p) 0.
@@ -165,6 +178,7 @@ Definition iwf (p : iprim) : Prop :=
   let nc := ip_nrows p * kind_k (ip_kind p) in
   (is_poly (ip_kind p) = true -> sum (ip_vcounts p) = ip_nrows p) /\
   (ip_nrows p <> 0 -> ip_vertex p <> None) /\
+  (ip_vertex p = None -> ip_normal p = None /\ ip_texcoord p = []) /\
   (forall x, ip_vertex p = Some x -> view_ok nc x) /\
   (forall x, ip_normal p = Some x -> view_ok nc x) /\
   Forall (view_ok nc) (ip_texcoord p).
